@@ -71,6 +71,7 @@ def r14_1(ctx) -> str:
         m = info.methods.get(mname)
         if m is None:
             raise AnalysisError(f"ExitStack.{mname} missing (anchor moved)")
+        m = ctx.inlined(m)  # the registration itself may sit in a private helper of the stack
         sites = [n for n in own_nodes(m.node) if isinstance(n, ast.Call) and isinstance(n.func, ast.Attribute)
                  and norm(n.func.value) == f"self.{STACK_ATTR}" and n.func.attr in ("append", "appendleft", "insert", "extend")]
         for s in sites:
@@ -434,8 +435,31 @@ def r14_4(ctx) -> None:
 
 
 # --------------------------------------------------------------------------- R14.5
+def _callback_runner(ctx):
+    """The coroutine that ``callback()`` registers to run a plain callback as an exit: the
+    first argument of the outer ``partial(...)`` (a method of the stack or a module function)."""
+    from .common import inline_locals
+    m = ctx.unit("contextlib.ExitStack.callback")
+    mcfg = cfg_of(m)
+    for r in mcfg.nodes:
+        if r.kind == "call" and not r.tag and isinstance(r.ast.func, ast.Attribute) \
+                and norm(r.ast.func.value) == f"self.{STACK_ATTR}" and r.ast.args:
+            e = inline_locals(ctx, m, mcfg, r, r.ast.args[0])
+            if isinstance(e, ast.Call) and e.args:
+                for f in ctx.vals.expr(m, e.args[0], r):
+                    t = ctx.pkg.lib_unit(f[1]) if f[0] == "libfn" else ctx.vals.find_method(f[1], f[2]) if f[0] == "bound" else None
+                    if t is not None and t.kind == "coroutine":
+                        return t
+    return None
+
+
 def r14_5(ctx) -> None:
-    u = ctx.unit("contextlib.ExitStack._aexit_callback")
+    u = _callback_runner(ctx)
+    if u is None:
+        ctx.fail("R14.5", ctx.unit("contextlib.ExitStack.callback"), "callback",
+                 "callback() does not register its callback through a library coroutine that ignores the callback's result "
+                 "(a plain callback could suppress exceptions)")
+        return
     cfg = cfg_of(u)
     cb = u.param_names()[0]
     from .lru import enumerate_paths
@@ -445,12 +469,13 @@ def r14_5(ctx) -> None:
         awaits = [n for n in nodes if n.kind == "await"]
         ok = len(awaits) == 1 and isinstance(awaits[0].info.get("value"), ast.Call) \
             and norm(awaits[0].info["value"].func) == cb and not awaits[0].info["value"].args
-        ctx.check(ok, "R14.5", u, awaits[0] if awaits else "_aexit_callback",
+        ctx.check(ok, "R14.5", u, awaits[0] if awaits else u.node.name,
                   "the stored callback is awaited exactly once (its arguments are already bound)")
         rets = [n for n in nodes if n.kind == "return"]
         val = rets[-1].info.get("value") if rets else None
-        ctx.check(isinstance(val, ast.Constant) and val.value is False, "R14.5", u, rets[-1] if rets else "_aexit_callback",
+        ctx.check(isinstance(val, ast.Constant) and val.value is False, "R14.5", u, rets[-1] if rets else u.node.name,
                   "a callback can never suppress: constant False is returned")
+    runner_name = u.node.name
     m = ctx.unit("contextlib.ExitStack.callback")
     mcfg = cfg_of(m)
     cbp = m.param_names()[1]
@@ -466,8 +491,8 @@ def r14_5(ctx) -> None:
         def is_partial(x):
             return isinstance(x, ast.Call) and ctx.pkg.resolve_expr_global(m.module, x.func).qual in ("functools.partial",) and x.args
 
-        outer_ok = is_partial(e) and norm(e.args[0]).endswith("._aexit_callback") and len(e.args) == 2 and not e.keywords
-        ctx.check(bool(outer_ok), "R14.5", m, r, "the bound callback is registered through _aexit_callback (cannot suppress)",
+        outer_ok = is_partial(e) and norm(e.args[0]).split(".")[-1] == runner_name and len(e.args) == 2 and not e.keywords
+        ctx.check(bool(outer_ok), "R14.5", m, r, f"the bound callback is registered through {runner_name} (cannot suppress)",
                   node=r, witness=norm(e))
         inner = e.args[1] if outer_ok else None
         ok = False
